@@ -210,7 +210,9 @@ def plan(prop, tier):
         return [TableJob("c10_u2", MUT + ["Children"], ["Children", "RemoveChildren", "Retain"], targets=both),
                 u3c("c10_u3c", ["Retain", "Children"], ["Children"])] + bnd("c10", ["Children", "RemoveChildren"]) + chain("c10", ["Children", "RemoveChildren", "Retain"]) + deep("c10", ["Children", "Retain", "RemoveChildren"])
     if prop == "C11":
-        return [TableJob("c11_u2", core + ["ViewDesc"], ["ViewDesc"], targets=both)] + bnd("c11", ["ViewDesc"]) + chain("c11", ["ViewDesc"]) + deep("c11", ["ViewDesc"])
+        return [TableJob("c11_u2", core + ["ViewDesc"], ["ViewDesc"], targets=both),
+                # view_at on a view (= find): from every view position, stored, branching or virtual
+                TableJob("c11_at", core + ["FindAt"], ["Find"], targets=both)] + bnd("c11", ["ViewDesc"]) + chain("c11", ["ViewDesc"]) + deep("c11", ["ViewDesc"])
     if prop == "C12":
         return [TableJob("c12_u2", core + ["Find"], ["Find"], targets=both)] + bnd("c12", ["Find"]) + chain("c12", ["Find"], mc=2 if q else 3, mn=5 if q else 6) + deep("c12", ["Find"], 2, 5)[:1]
     if prop == "C13":
